@@ -795,6 +795,25 @@ def install(E):
             k += 1
             spec = (m.group(1) or "") + m.group(2)
             if m.group(2) == "s":
+                if isinstance(a, SeqStr):
+                    # a z3 sequence of code points that simplifies to a literal (int2name of a concrete index)
+                    lit = z3.simplify(a.t)
+                    if z3.is_string_value(lit):
+                        a = Str([lit.as_string()])
+                    elif z3.is_app(lit) and lit.decl().kind() in (z3.Z3_OP_SEQ_UNIT, z3.Z3_OP_SEQ_CONCAT, z3.Z3_OP_SEQ_EMPTY):
+                        def units(t):
+                            k = t.decl().kind()
+                            if k == z3.Z3_OP_SEQ_EMPTY:
+                                return []
+                            if k == z3.Z3_OP_SEQ_UNIT:
+                                v = z3.simplify(t.arg(0))
+                                if z3.is_int_value(v):
+                                    return [chr(v.as_long())]
+                                raise Unsupported("%s of a symbolic sequence")
+                            if k == z3.Z3_OP_SEQ_CONCAT:
+                                return [c for ch in t.children() for c in units(ch)]
+                            raise Unsupported("%s of a symbolic sequence")
+                        a = Str(["".join(units(lit))])
                 if isinstance(a, Str):
                     parts.extend(a.parts)
                 elif isinstance(a, Num):
